@@ -329,6 +329,9 @@ def parse_location_step(tokens: TokenTree) -> LocationStep:  # noqa: C901
 
 
 def parse_evaluation_expression(tokens: TokenTree) -> EvaluationNode:  # noqa: C901
+    if not tokens:
+        raise XPathParsingError(message="Missing expression.")
+
     if all_tokens_match(tokens, (TokenType.NUMBER,)):
         assert isinstance(tokens[0], Token)
         return AnyValue(int(tokens[0].string))
